@@ -182,7 +182,7 @@ PayloadValid(in) == /\ ~RepeatsAction(in)
 (* makes no claim beyond "an acknowledgement is returned".                          *)
 Mutations == {"null", "absent", "emptyobj", "emptyarr", "string", "number", "bool", "negative", "two64", "huge",
               "emptystr", "longstr", "numstr", "dupkey", "dupsame", "deep", "deepobj", "rename",
-              "trailgarbage", "trailobj", "trailbrace", "leadgarbage"}      \* (the last four apply to the whole document only)
+              "trailgarbage", "trailobj", "trailbrace", "leadgarbage", "tworoots"}      \* (the last five apply to the whole document only)
 DupMuts == {"dupkey", "dupsame"}
 WrongTypeForList == Mutations \ (DupMuts \cup {"null", "absent", "emptyarr"})
 PA == "orbiter.pre_actions"
